@@ -104,22 +104,37 @@ def fixed_elements(cd, t) -> int:
 def out_of_range_spelling(rng, t, cv):
     """Returns a number != cv that must be cast to cv under t's cast mode, or None if there is none."""
     k = t[0]
+    # integer fields also take Python floats: an exactly integral float stands for that integer (wrapped or clamped like
+    # an int), and a float beyond the range of a saturated field is clamped - also where float(range limit) is not exact
+    as_float = rng.random() < 0.35
+
+    def exact(x):
+        return float(x) if (as_float and abs(x) < 1 << 1000 and int(float(x)) == x) else x
+
     if k == "uint":
         n, mode = t[1], t[2]
         if mode == "trunc":
-            return cv + rng.choice([1, -1, 2, 1 << 10]) * (1 << n)
+            return exact(cv + rng.choice([1, -1, 2, 1 << 10]) * (1 << n))
         if cv == (1 << n) - 1:
+            if as_float:
+                return rng.choice([float(1 << n), float(1 << n) * 4.0, float(1 << n) + float(1 << max(0, n - 50)) * 8, 1e20 if n <= 64 else 1e300, 1e30, 1.7e308])
             return cv + rng.choice([1, 2, 1 << n, 10 ** 30])
         if cv == 0:
+            if as_float:
+                return -rng.choice([1.0, 2.0, float(1 << n), 1e30, 1.7e308])
             return -rng.choice([1, 2, 1 << n, 10 ** 30])
-        return None
+        return exact(cv) if (as_float and exact(cv) is not cv) else None
     if k == "int":
         n = t[1]
         if cv == (1 << (n - 1)) - 1:
+            if as_float:
+                return rng.choice([float(1 << (n - 1)), float(1 << n), float(1 << (n - 1)) * 1.5, 1e20 if n <= 64 else 1e300, 1e30, 1.7e308])
             return cv + rng.choice([1, 2, 1 << n, 10 ** 30])
         if cv == -(1 << (n - 1)):
+            if as_float:
+                return -rng.choice([float(1 << (n - 1)) * 2.0, float(1 << n), float(1 << (n - 1)) * 1.5, 1e20 if n <= 64 else 1e300, 1e30, 1.7e308])
             return cv - rng.choice([1, 2, 1 << n, 10 ** 30])
-        return None
+        return exact(cv) if (as_float and exact(cv) is not cv) else None
     if k == "float":
         w, mode = t[1], t[2]
         if cv != cv:
